@@ -94,6 +94,9 @@ def run_batch(flavour, exe, seed, first, count, prefix, cls, want_trace, stuck_m
     if stuck_ms:
         cmd.append("stuck_ms=%d" % stuck_ms)
     env = sanlog.env_for(flavour, prefix)
+    if "TSAN_OPTIONS" in env:
+        # children leave through _exit with parked producer threads: that is the scenario, not a leak
+        env["TSAN_OPTIONS"] += ":report_thread_leaks=0"
     per = 0.02 if flavour == "plain" else 1.0
     r = core.run(cmd, timeout=timeout or max(600, 60 * per * count), env=env)
     results = []
@@ -133,6 +136,10 @@ def account_history(chk, agg, seed, cls, flavour, res, tr):
         else:
             chk.violation("C23|crash|signal%s|class=%s" % (res.get("signal"), cls),
                           "history %s crashed with signal %s" % (h, res.get("signal")), case)
+        return
+    if verdict == "batch-aborted":
+        chk.evaluations -= 1
+        chk.bump("histories_skipped_after_10_wedged_histories_in_a_batch", int(res.get("remaining", 0)))
         return
     if verdict in ("hard-timeout", "garbled", "harness"):
         chk.inconclusive_case("history %s: %s" % (h, verdict), case)
@@ -177,17 +184,27 @@ def account_history(chk, agg, seed, cls, flavour, res, tr):
 def settle_stuck(chk, agg, exe_of):
     """Histories that made no progress: a defect proven from the real state is already reported by the harness;
     shutdown-stuck counts only when it reproduces; everything else is inconclusive after one re-run."""
-    for seed, h, cls, flavour, res, case in agg.stuck_rerun:
+    # shutdown-stuck candidates first; re-running more than a handful adds nothing
+    todo = sorted(agg.stuck_rerun, key=lambda x: (int(x[4].get("stuck", 0)) != 2, int(x[4].get("proven", 0))))
+    chk.bump("stuck_histories", len(todo))
+    if len(todo) > 8:
+        chk.bump("stuck_histories_not_rerun", len(todo) - 8)
+        for seed, h, cls, flavour, res, case in todo[8:]:
+            if int(res.get("stuck", 0)) == 2 or not int(res.get("proven", 0)):
+                chk.inconclusive_case("history %s made no progress in phase %s (%s), not re-run (too many): %s"
+                                      % (h, res.get("stuck"), cls, res.get("diag", "")[:300]), case)
+    for seed, h, cls, flavour, res, case in todo[:8]:
         phase = int(res.get("stuck", 0))
         proven = int(res.get("proven", 0))
         again = 0
         tries = 3 if phase == 2 else 1
+        if phase != 2 and proven:
+            continue  # the defect is already reported from the real state
         for t in range(tries):
             prefix = os.path.join(chk.dir, "rerun-%s-%s-%d" % (cls, h, t))
-            r, results = run_batch(flavour, exe_of(flavour), seed, h, 1, prefix, cls, False, stuck_ms=8000)
+            r, results = run_batch(flavour, exe_of(flavour), seed, h, 1, prefix, cls, False, stuck_ms=5000)
             if results and int(results[0].get("stuck", 0)) == phase:
                 again += 1
-        chk.bump("stuck_histories")
         if phase == 2:
             if again:
                 chk.violation("C23|client|shutdown-stuck",
